@@ -88,7 +88,17 @@ DEP_PATHS = ["this.x", "this._.x", "this._._.x", "this._root.x", "this._params.k
 def gen_shape(rng, depth, in_repeater=False, first=False):
     c = rng.random()
     if depth <= 0 or c < 0.2:
+        if rng.random() < 0.25:
+            A, Bsh, Csh = ["struct", [["spy"]]], ["spy"], ["seq", [["struct", [["spy"]]]]]
+            p = rng.choice(DEP_PATHS)
+            return rng.choice([["if", p, rng.choice([1, 2, 3]), A, Bsh], ["if", p, rng.choice([0, 1, 2]), Bsh, Csh], ["switch", p, A, Bsh, Csh], ["switch", p, Csh, A, Bsh]]
+                              + ([["fsrep", rng.randint(1, 3)]] if in_repeater else []))
         return rng.choice([["spy"], ["spy"], ["x"], ["x", "d"], ["dep", rng.choice(DEP_PATHS)]])
+    if c < 0.26 and depth >= 2:
+        inner = gen_shape(rng, depth - 1)
+        if inner[0] in ("struct", "seq"):
+            return ["tunnel", inner]
+        return inner
     if c < 0.62:
         kind = rng.choice(["struct", "struct", "seq", "focused", "union", "lazystruct"])
         n = rng.randint(1, 3)
@@ -237,6 +247,43 @@ def simulate(shape, op):
                 out.extend(bytes([0xd0 + n]) * n)
                 return None
             raise Stop()
+        if k == "tunnel":
+            # a tunnel (Compressed behind a length byte) hands the enclosing context on unchanged in both directions; no size
+            if op == "sizeof":
+                raise Stop()
+            start = len(out)
+            walk(node[1], chain, key + (0,), sizing)
+            body = bytes(out[start:])
+            del out[start:]
+            import zlib
+            comp = zlib.compress(body)
+            out.append(len(comp))
+            out.extend(comp)
+            return None
+        if k == "fsrep":
+            # a region whose length is this._index + 4 around a repeater of node[1] data bytes sharing the scope: the length is the
+            # enclosing repeater's index in parse and in build alike (not what the inner repeater leaves behind)
+            n = resolve("this._index", chain)
+            obs.append({"sid": "sel", "path": "this._index(+4)", "value": n})
+            if op == "sizeof" or not isinstance(n, int) or isinstance(n, bool):
+                raise Stop()
+            out.extend(range(1, node[1] + 1))
+            out.extend(b"\x00" * (n + 4 - node[1]))
+            cur["_index"] = ANY
+            return None
+        if k in ("if", "switch"):
+            # a branch selected by a context expression: the same branch in parse, build and sizeof (branches hold spies at
+            # different depths, no data)
+            sel = resolve(node[1], chain)
+            obs.append({"sid": "sel", "path": node[1], "value": sel})
+            if not isinstance(sel, int) or isinstance(sel, bool):
+                raise Stop()
+            if k == "if":
+                br = node[3] if sel == node[2] else node[4]
+            else:
+                br = node[2] if sel == 1 else node[3] if sel == 2 else node[4]
+            walk(br, chain, key + (9,), sizing)
+            return None
         if k == "dep":
             n = resolve(node[1], chain)
             obs.append({"sid": "dep", "path": node[1], "value": n})
@@ -300,6 +347,12 @@ def simulate(shape, op):
     return obs, bytes(out), complete
 
 
+def PATH_EXPR():
+    import construct as C
+    return {"this.x": C.this.x, "this._.x": C.this._.x, "this._._.x": C.this._._.x, "this._root.x": C.this._root.x, "this._params.k": C.this._params.k,
+            "this._index": C.this._index, "this._._index": C.this._._index}
+
+
 def mk_construct(shape, Spy, log, sidc):
     import construct as C
     k = shape[0]
@@ -325,6 +378,15 @@ def mk_construct(shape, Spy, log, sidc):
         return C.Array(shape[1], C.Default(C.Byte, DV))
     if k == "depa":
         return C.Bytes(C.this.a[shape[1]])
+    if k == "tunnel":
+        return C.Prefixed(C.Byte, C.Compressed(mk_construct(shape[1], Spy, log, sidc), "zlib"))
+    if k == "fsrep":
+        return C.FixedSized(C.this._index + 4, C.Array(shape[1], C.Byte))
+    if k in ("if", "switch"):
+        e = PATH_EXPR()[shape[1]]
+        if k == "if":
+            return C.IfThenElse(e == shape[2], mk_construct(shape[3], Spy, log, sidc), mk_construct(shape[4], Spy, log, sidc))
+        return C.Switch(e, {1: mk_construct(shape[2], Spy, log, sidc), 2: mk_construct(shape[3], Spy, log, sidc)}, default=mk_construct(shape[4], Spy, log, sidc))
     if k == "dep":
         p = shape[1]
         e = {"this.x": C.this.x, "this._.x": C.this._.x, "this._._.x": C.this._._.x, "this._root.x": C.this._root.x, "this._params.k": C.this._params.k,
@@ -378,6 +440,8 @@ def has_multiple_x(shape):
         return any(has_multiple_x(m) for m in shape[1])
     if shape[0] in ("array", "greedy", "until"):
         return has_multiple_x(shape[2])
+    if shape[0] == "tunnel":
+        return has_multiple_x(shape[1])
     return False
 
 
@@ -402,6 +466,12 @@ def build_value(shape, key=()):
         return [None] * shape[1]
     if k == "depa":
         return ("dep", "this.a[%d]" % shape[1])
+    if k == "tunnel":
+        return build_value(shape[1], key + (0,))
+    if k == "fsrep":
+        return list(range(1, shape[1] + 1))
+    if k in ("if", "switch"):
+        return None                            # every branch builds from nothing
     if k in OPENERS:
         if k == "seq":
             return [build_value(m, key + (i,)) for i, m in enumerate(shape[1])]
@@ -487,6 +557,11 @@ def opener_kinds(shape):
         elif n[0] in ("array", "greedy", "until"):
             ks.add(n[0])
             f(n[2])
+        elif n[0] == "tunnel":
+            ks.add("tunnel")
+            f(n[1])
+        elif n[0] in ("if", "switch", "fsrep"):
+            ks.add(n[0])
     f(shape)
     return "+".join(sorted(ks))
 
@@ -602,6 +677,8 @@ def has_greedy_not_last(shape, last=True):
         return any(has_greedy_not_last(m, last and i == len(ms) - 1 and k != "union") for i, m in enumerate(ms))
     if k in ("array", "until"):
         return has_greedy_not_last(shape[2], False)
+    if k == "tunnel":
+        return has_greedy_not_last(shape[1], True)     # the tunnel's data ends where its inner format ends
     return False
 
 
@@ -663,6 +740,32 @@ def enumerate_small():
         out.append(["array", 2, ["struct", [["x"], ["union", [["spy"], ["x"]], sel]]], False])
         out.append(["struct", [["x"], ["seq", [["x"], ["struct", [["union", [["x"], ["spy"]], sel]]]]]]])
         out.append(["union", [["x"], ["spy"]], sel])
+    # tunnels: the enclosing context reaches the inner format unchanged in both directions
+    for a in leaves:
+        inner = ["struct", [["x"], a, ["spy"]]]
+        out.append(["struct", [["x"], ["tunnel", inner]]])
+        out.append(["struct", [["x"], ["struct", [["x"], ["tunnel", ["seq", [["spy"], ["struct", [a, ["spy"]]]]]]]]]])
+        out.append(["array", 2, ["struct", [["x"], ["tunnel", inner]]], False])
+        out.append(["tunnel", inner])
+        out.append(["struct", [["x"], ["tunnel", ["struct", [["tunnel", inner]]]]]])
+    # branches selected by every path, compared with both outcomes, at every level; branches sit at different depths
+    A, Bsh, Csh = ["struct", [["spy"]]], ["spy"], ["seq", [["struct", [["spy"]]]]]
+    for p in DEP_PATHS:
+        for cv in (1, 2, 3):
+            for br in (["if", p, cv, A, Bsh], ["if", p, cv, Bsh, Csh], ["switch", p, A, Bsh, Csh]):
+                if br[0] == "switch" and cv != 1:
+                    continue
+                out.append(["struct", [["x"], br, ["spy"]]])
+                out.append(["struct", [["x"], ["struct", [["x"], br]]]])
+                out.append(["array", 2, ["struct", [["x"], br]], False])
+                out.append(["seq", [["x"], ["struct", [["struct", [br]]]]]])
+                out.append(br)
+    # a region sized by the enclosing repeater's index around a repeater that shares the scope
+    for rep in ("array", "greedy", "until"):
+        for kk in (1, 2, 3):
+            out.append([rep, 3, ["struct", [["x"], ["fsrep", kk]]] if rep != "array" else ["fsrep", kk], False])
+            out.append(["struct", [["x"], [rep, 2, ["struct", [["x"], ["fsrep", kk], ["spy"]]], False]]])
+            out.append(["array", 3, ["seq", [["fsrep", kk], ["spy"]]], False])
     # plain nested structures inside a LazyStruct: entered through sizeof while parsing
     for inner in (["struct", [["spy"], ["x"], ["spy"]]], ["seq", [["spy"], ["struct", [["x"], ["spy"]]]]], ["struct", [["struct", [["seq", [["spy"]]]]], ["x"]]]):
         out.append(["lazystruct", [["x"], inner, ["spy"]]])
